@@ -11,7 +11,7 @@ static EXECUTIONS: AtomicU64 = AtomicU64::new(0);
 static OUTCOMES: Mutex<Option<HashSet<Vec<Vec<String>>>>> = Mutex::new(None);
 
 /// Name parts: plain, dotted (an extension-like suffix must not swallow the unique part), empty, with separators.
-const NAME_PARTS: [&str; 6] = ["shared", "x.bin", "a.b.c", "", "with space", "trailing."];
+const NAME_PARTS: [&str; 8] = ["shared", "x.bin", "a.b.c", "", "with space", "trailing.", "nnnnnnnnnnnnnnnnnnnnnnnnnnnnnnnnnnnnnnnnnnnnnnnnnnnnnnnnnnnnnnnnnnnnnnnnnnnnnnnnnnnnnnnnnnnnnnnnnnnnnnnnnnnnnnnnnnnnnnnnnnnnnnnnnnnnnnnnnnnnnnnnnnnnnnnnnnnnnnnnnnnnnnnnnnnnnnnnnnnnnnnnnnnnnnnnnnnnnnnnnnnnnnnnnnnnnnnnnnnnnnnnnnnnnnnnnnnnnnnnnnnnnnnnnn", "mmmmmmmmmmmmmmmmmmmmmmmmmmmmmmmmmmmmmmmmmmmmmmmmmmmmmmmmmmmmmmmmmmmmmmmmmmmmmmmmmmmmmmmmmmmmmmmmmmmmmmmmmmmmmmmmmmmmmmmmmmmmmmmmmmmmmmmmmmmmmmmmmmmmmmmmmmmmmmmmmmmmmmmmmmmmmmmmmmmmmmmmmmmmmmmmmmmmmmmmmmmmmmmmmmmmmmmmmmmmmmmmmmmmmmmmmmmmmmmmmmmmmmmmmmmmmmmmmmmmmmmmmmmmmmmmmmmmmmmmmmmmmmmmmmmmmmmmmmmm"];
 
 fn run(threads: usize, calls: usize, shared_name: bool) {
     for (k, name) in NAME_PARTS.iter().enumerate() {
